@@ -24,7 +24,7 @@ def extract(case):
         cleaned = clean_text(case["text"], steps)
         cits = get_citations(markup_text=case["text"], clean_steps=steps, tokenizer=tk)
         return cleaned, cits
-    return case["text"], get_citations(case["text"], tokenizer=tk)
+    return case["text"], get_citations(case["text"], tokenizer=tk, **(case.get("opts") or {}))
 
 
 def decorate(fragments, decorations):
